@@ -5,9 +5,10 @@
        if classMap != nil { c.compileMap(obj, classMap) }
    seen as an expansion of references (V.C14.Dfs): nodes are class names, a class "opens" when
    GetClassMap finds it, its successors are the class names its own `class` field lists.
-   The pinned code expands without remembering which classes are being applied ([check = false]);
-   coq/C07/fix.patch keeps the stack of classes being applied and reports a class met again
-   ([check = true]); a report does not stop later applications ([stop = false]).
+   The code of /repo (since commit 9d408296b) keeps the stack of class maps being applied (compiler.pushClass /
+   popClass) and reports a class met again: [check = true], the main definition [apply_classes_now]; a report
+   does not stop later applications ([stop = false]).  Before that commit the expansion did not remember
+   which classes were being applied ([check = false]): kept for the historical refutation.
    Fuel is consumed by nesting depth only. *)
 From Coq Require Import List NArith Bool Arith Lia.
 Import ListNotations.
@@ -32,6 +33,9 @@ Definition class_succ (cs : classes) (n : str) : list str :=
 Definition apply_classes (check : bool) (fuel : nat) (cs : classes) (ns : list str)
   : option (list (@event str) * bool) :=
   seq_all (visit str_eqb (class_exists cs) (class_succ cs) check false fuel []) ns false.
+
+(* the code as it is *)
+Definition apply_classes_now := apply_classes true.
 
 Lemma class_exists_in cs n : class_exists cs n = true -> In n (map fst cs).
 Proof.
